@@ -91,6 +91,22 @@ static J run(const J& c)
                     else
                         S(0).s = std::make_unique<Sym>(*S(1).s);
                 }
+                else if (op == "AssignCopy")
+                {
+                    if (S(0).d)
+                        *S(0).d = *S(1).d;
+                    else
+                        *S(0).s = *S(1).s;
+                }
+                else if (op == "AssignMove")
+                {
+                    if (S(0).d)
+                        *S(0).d = std::move(*S(1).d);
+                    else
+                        *S(0).s = std::move(*S(1).s);
+                    S(1).d.reset(); // the moved-from object goes away at once
+                    S(1).s.reset();
+                }
                 else if (op == "Call")
                 {
                     double x = 0.5 + static_cast<double>(k);
